@@ -333,7 +333,7 @@ Qed.
 (* bundle_block                                                        *)
 
 Definition bundled_pool (p1 : pool) (block : list tx) : pool :=
-  mkP [] (fold_left (fun m k => srem k m) (block_keys block) (umap p1)) 0 false (gts p1).
+  mkP [] [] 0 false (gts p1).
 
 
 Definition restored_pool (p1 : pool) (k : list tx) : pool :=
@@ -341,7 +341,7 @@ Definition restored_pool (p1 : pool) (k : list tx) : pool :=
 
 Lemma core_cases l p env wn st ex p' r :
   bundle_core l p env wn st ex = Ok (p', r) ->
-  (p' = p /\ r = None /\ create_fails l p env wn st ex = false /\ leaves_stale l p env wn st ex = false) \/
+  (p' = p /\ r = None /\ create_fails l p env wn st ex = false) \/
   exists s p1, st = Some s /\ can_bundle_block p env wn = true /\
     add_transaction_if_validates l p s = Ok p1 /\
     ((dup_spend (kept ex (txs p1) ++ ex) = true /\ create_fails l p env wn st ex = true /\
@@ -349,7 +349,7 @@ Lemma core_cases l p env wn st ex p' r :
      (dup_spend (kept ex (txs p1) ++ ex) = false /\ create_fails l p env wn st ex = false /\
       p' = bundled_pool p1 (kept ex (txs p1) ++ ex) /\ r = Some (kept ex (txs p1) ++ ex))).
 Proof.
-  unfold bundle_core, create_fails, leaves_stale.
+  unfold bundle_core, create_fails.
   destruct (can_bundle_block p env wn) eqn:C; simpl.
   2:{ intros H. inversion H. left. auto. }
   destruct st as [s|].
@@ -517,8 +517,7 @@ Proof.
   - apply InvB_empty.
 Qed.
 
-(* I3: every step keeps it except a bundle that leaves a left-out transaction's other
-   inputs reserved; every block addition re-establishes it *)
+(* I3: every step keeps it; every block addition establishes it from scratch *)
 Lemma I3_gts_fresh p g u : I3 p -> I3 (mkP (txs p) (umap p) (work p) u g).
 Proof. unfold I3. simpl. tauto. Qed.
 
@@ -543,28 +542,17 @@ Proof.
 Qed.
 
 Lemma I3_core l p env wn st ex p' r :
-  bundle_core l p env wn st ex = Ok (p', r) -> leaves_stale l p env wn st ex = false ->
-  I3 p -> I3 p'.
+  bundle_core l p env wn st ex = Ok (p', r) -> I3 p -> I3 p'.
 Proof.
-  intros B HK HI. pose proof B as B0. apply core_cases in B.
-  destruct B as [[-> _]|[s0 [p1 [-> [C [A [[_ [_ [-> _]]]|[D [_ [-> _]]]]]]]]]]; auto.
+  intros B HI. apply core_cases in B.
+  destruct B as [[-> _]|[s0 [p1 [_ [_ [_ [[_ [_ [-> _]]]|[_ [_ [-> _]]]]]]]]]]; auto.
   - unfold restored_pool. apply I3_rebuilt.
-  - assert (H1 : I3 p1) by (eapply I3_add_if_valid; eauto).
-    unfold leaves_stale in HK. rewrite C, A, D in HK. simpl in HK.
-    rewrite existsb_false in HK.
-    intros k Hk. simpl in Hk. apply fold_srem_In in Hk. destruct Hk as [Hk Hn].
-    destruct (H1 k Hk) as [t [Ht Hkt]]. exfalso.
-    specialize (HK t Ht). apply andb_false_iff in HK. destruct HK as [HK|HK].
-    + apply Hn. unfold block_keys. apply in_flat_map. exists t. split; [|exact Hkt].
-      apply in_app_iff. left. unfold kept. apply filter_In. split; [exact Ht|]. rewrite HK. reflexivity.
-    + rewrite existsb_false in HK. specialize (HK k Hkt). apply negb_false_iff in HK.
-      apply mem_In in HK. contradiction.
+  - intros k [].
 Qed.
 
-Lemma I3_step s o x :
-  I3 (pl s) -> ev_left_out_stale s o = false -> step s o = Ok x -> I3 (pl (fst x)).
+Lemma I3_step s o x : I3 (pl s) -> step s o = Ok x -> I3 (pl (fst x)).
 Proof.
-  intros HI HK HS. destruct o as [t|a b|ts bg env wn st ex|l b|h mine b]; simpl in HS.
+  intros HI HS. destruct o as [t|a b|ts bg env wn st ex|l b|h mine b]; simpl in HS.
   - destruct (add_transaction_if_validates (ledger s) (pl s) t) eqn:A; simpl in HS; try discriminate.
     inversion HS. subst. simpl. eapply I3_add_if_valid; eauto.
   - inversion HS. subst. simpl. unfold add_golden_ticket.
@@ -572,7 +560,7 @@ Proof.
   - destruct (bundle_block (ledger s) (pl s) ts bg env wn st ex) as [[p' r]| |] eqn:B; simpl in HS; try discriminate.
     inversion HS. subst. simpl. unfold bundle_block in B.
     destruct ts; simpl in B; [|inversion B; subst; exact HI].
-    simpl in HK. eapply I3_core; [exact B|exact HK|].
+    eapply I3_core; [exact B|].
     destruct bg; simpl; [apply (I3_gts_fresh (pl s))|]; exact HI.
   - inversion HS. subst. simpl. apply I3_remove.
   - destruct (add_block_failure (ledger s) (pl s) h mine b) as [p'| |] eqn:F; simpl in HS; try discriminate.
@@ -583,23 +571,12 @@ Proof.
     inversion F. subst. apply (I3_gts_fresh p1). eapply I3_add_all; eauto.
 Qed.
 
-Lemma run_invariant_K (K : state -> op -> bool) (Inv : state -> Prop) :
-  (forall s o x, Inv s -> K s o = false -> step s o = Ok x -> Inv (fst x)) ->
-  forall ops s s', Inv s -> known_in K s ops = false -> run s ops = Ok s' -> Inv s'.
+Theorem no_stale_reservation : forall g ops s, run (init g) ops = Ok s -> I3 (pl s).
 Proof.
-  intros Hstep. induction ops as [|o r IH]; intros s s' HI HK HR.
-  - simpl in HR. inversion HR. subst. exact HI.
-  - apply run_cons in HR. destruct HR as [x [Hs Hr]].
-    simpl in HK. apply orb_false_iff in HK. destruct HK as [HK1 HK2].
-    rewrite Hs in HK2. eapply IH; [eapply Hstep; eauto | exact HK2 | exact Hr].
-Qed.
-
-Theorem no_stale_reservation : forall g ops s,
-  known_in ev_left_out_stale (init g) ops = false -> run (init g) ops = Ok s -> I3 (pl s).
-Proof.
-  intros g ops s HK HR.
-  eapply (run_invariant_K ev_left_out_stale (fun s => I3 (pl s))); eauto using I3_step.
-  intros k [].
+  intros g ops s HR.
+  apply (run_invariant (fun s => I3 (pl s))) with (ops := ops) (s := init g); auto.
+  - intros. eapply I3_step; eauto.
+  - intros k [].
 Qed.
 
 (* whatever happened before, a block addition re-establishes I3 (rebuild_utxo_map) *)
@@ -742,17 +719,15 @@ Proof.
 Qed.
 
 
-(* ... hence after every operation sequence without a stale-leaving bundle, and after every
-   block addition *)
+(* ... hence after every operation sequence *)
 Theorem unspent_always_spendable : forall g ops s t,
-  known_in ev_left_out_stale (init g) ops = false ->
   run (init g) ops = Ok s ->
   tx_validate (ledger s) t = true -> t_type t <> TGoldenTicket -> producer_only t = false ->
   has_tx (t_id t) (txs (pl s)) = false ->
   (forall k u, In k (vkeys t) -> In u (txs (pl s)) -> ~ In k (in_keys u)) ->
   exists p', add_transaction_if_validates (ledger s) (pl s) t = Ok p' /\ In t (txs p').
 Proof.
-  intros g ops s t HK HR. apply fresh_spend_pooled. eapply no_stale_reservation; eauto.
+  intros g ops s t HR. apply fresh_spend_pooled. eapply no_stale_reservation; eauto.
 Qed.
 
 (* the recomputation in delete_transactions makes the cache exact, whatever it was *)
@@ -772,7 +747,7 @@ Qed.
    Some b: b has no double spend; the pool is emptied and the cache reset; every pooled
    transaction is in b, except those that spend an output which b itself rebroadcasts
    (Block::create leaves them out: they can never validate again once b is on the chain);
-   no input of a transaction of b stays reserved. *)
+   no reservation is left. *)
 Theorem bundle_atomic : forall l p ts bg env wn st ex p' r,
   bundle_block l p ts bg env wn st ex = Ok (p', r) ->
   create_fails l (drop_bad_gt p bg) env wn st ex = false ->
@@ -781,7 +756,7 @@ Theorem bundle_atomic : forall l p ts bg env wn st ex p' r,
   | Some b => ts = true /\ txs p' = [] /\ work p' = 0 /\ dup_spend b = false /\
               (forall t, In t (txs p) ->
                  In t b \/ (exists k, In k (vkeys t) /\ In k (rebroadcast_keys ex))) /\
-              (forall t k, In t b -> In k (in_keys t) -> ~ In k (umap p')) /\
+              umap p' = [] /\
               gts p' = gts (drop_bad_gt p bg)
   end.
 Proof.
@@ -800,8 +775,6 @@ Proof.
     + right. unfold left_out in L. destruct (t_type t); try discriminate;
         apply existsb_exists in L; destruct L as [k [Hk Hm]]; apply mem_In in Hm; eauto.
     + left. apply in_app_iff. left. unfold kept. apply filter_In. rewrite L. auto.
-  - intros t k Ht Hk Hin. apply fold_srem_In in Hin. destruct Hin as [_ Hn]. apply Hn.
-    unfold block_keys. apply in_flat_map. eauto.
 Qed.
 
 (* a transaction that Block::create leaves out does not validate against any ledger from
@@ -833,7 +806,7 @@ Theorem failed_create_restores_pool : forall l p ts bg env wn st ex p' r,
 Proof.
   intros l p ts bg env wn st ex p' r B -> F. unfold bundle_block in B. simpl in B.
   apply core_cases in B.
-  destruct B as [[_ [_ [F' _]]]|[s0 [p1 [_ [_ [A [[_ [_ [-> ->]]]|[_ [F' _]]]]]]]]]; try congruence.
+  destruct B as [[_ [_ F']]|[s0 [p1 [_ [_ [A [[_ [_ [-> ->]]]|[_ [F' _]]]]]]]]]; try congruence.
   split; [reflexivity|]. split; [apply I3_rebuilt|]. split; [reflexivity|].
   intros t Ht. destruct (drop_bad_gt_fields p bg) as [Et _]. rewrite <- Et in Ht.
   assert (In t (txs p1)) as H1
@@ -1001,44 +974,13 @@ Definition wS  : tx := mkTx 90 [] 0 TBlockStake true 0.           (* staking tra
 Definition wR  : tx := mkTx 30 [(1, 100)] 0 TATR true 0.          (* rebroadcast of output 1 *)
 Definition wG  : list N := [1; 2; 3].
 
-(* user-visible failure of I3: a spendable output that no pooled transaction names, and a
-   fresh valid transaction spending it that the pool does not take *)
-Definition funds_locked (s : state) (t : tx) : Prop :=
-  tx_validate (ledger s) t = true /\ t_type t = TNormal /\
-  has_tx (t_id t) (txs (pl s)) = false /\
-  (forall k u, In k (vkeys t) -> In u (txs (pl s)) -> ~ In k (in_keys u)) /\
-  add_transaction_if_validates (ledger s) (pl s) t = Ok (pl s).
-
 (* window edge: wA2 spends output 1, which the block rebroadcasts, and output 2; wE is
-   unrelated.  Block::create leaves wA2 out and bundles wE; the reservation of output 2
-   stays although no pooled transaction names it, also after the bundled block failed to
-   be added -- until the next block addition *)
-Definition ops_left_out : list op :=
-  [OAddTx wA2; OAddTx wE; OBundle true None true 0 (Some wS) [wR]].
-
-Lemma I3_refuted_left_out :
-  exists g ops s, run (init g) ops = Ok s /\
-    known_in ev_left_out_stale (init g) ops = true /\ ~ I3 (pl s).
-Proof.
-  exists wG, ops_left_out. eexists. split; [vm_compute; reflexivity|]. split; [vm_compute; reflexivity|].
-  intros H. apply I3_I3b in H. vm_compute in H. discriminate.
-Qed.
-
-Lemma funds_locked_left_out :
-  exists g ops s t, run (init g) ops = Ok s /\ funds_locked s t.
-Proof.
-  exists wG, (ops_left_out ++ [OBlockFailed 77 true [wE; wS; wR]]). eexists. exists wC.
-  split; [vm_compute; reflexivity|].
-  unfold funds_locked. simpl. repeat split; try reflexivity.
-  intros k u [<-|[]] [<-|[]]. simpl. intros [E|[]]. discriminate.
-Qed.
-
-(* the same bundle seen from I4: the block holds wE (and the additions), the pool is empty,
-   wA2 is in neither *)
+   unrelated.  The block holds wE (and the additions), the pool is empty, wA2 is in neither,
+   and (since ffb4da9) no reservation is left: output 2 can be spent again *)
 Lemma left_out_example :
   exists s p' b, run (init wG) [OAddTx wA2; OAddTx wE] = Ok s /\
     bundle_block (ledger s) (pl s) true None true 0 (Some wS) [wR] = Ok (p', Some b) /\
-    map t_id b = [90; 15; 30] /\ txs p' = [] /\ umap p' = [2].
+    map t_id b = [90; 15; 30] /\ txs p' = [] /\ umap p' = [].
 Proof. eexists. eexists. eexists. split; [vm_compute; reflexivity|]. repeat split; vm_compute; reflexivity. Qed.
 
 (* a failing Block::create (model level: two rebroadcasts of the same output) hands the
@@ -1104,10 +1046,8 @@ Definition ops_life : list op :=
    OBlockFailed 78 false [wE];
    OBlockFailed 79 true [wF; wE]].
 
-Definition Kall (s : state) (o : op) : bool := ev_failed_create s o || ev_left_out_stale s o.
-
 Lemma life_example :
-  exists s, run (init wG) ops_life = Ok s /\ known_in Kall (init wG) ops_life = false /\
+  exists s, run (init wG) ops_life = Ok s /\ known_in ev_failed_create (init wG) ops_life = false /\
             map t_id (txs (pl s)) = [18; 15] /\ umap (pl s) = [4; 3] /\ work (pl s) = 47 /\
             gts (pl s) = [].
 Proof. eexists. split; [vm_compute; reflexivity|]. repeat split; vm_compute; reflexivity. Qed.
